@@ -3,9 +3,124 @@
 in progress allowed to finish).  The signal handling and exit timing of main.rs are outside what is decided here."""
 import os, sys
 sys.path.insert(0, os.path.dirname(os.path.dirname(os.path.abspath(__file__))))
-from harness.common import run_check
+import re, struct
+import z3
+from harness.common import run_check, expectation
+from checks.serverfam import *
+from mirsym.models.util import ok, err
 from checks import hobl
 from checks import c09
+from checks import fromconfig as FC
+from harness.server_state import mk_client
+
+
+@expectation('c17_drain')
+def c17_drain():
+    """Native confirmation: the real client_entrypoint over loopback TCP for a client that terminates, one whose socket drops and one
+    whose startup fails; the drain channel must sum to 0 each time (and count an admitted client)."""
+    def f(res):
+        bad = []
+        for r in res:
+            if 'error' in r or 'panic' in r:
+                return False, 'native: %r' % (r,)
+            if r['sum'] != 0 or (r['logged_in'] and r['drain'][:1] != [1]) or (not r['logged_in'] and r['drain']):
+                bad.append(r)
+        return bool(bad), 'native client_entrypoint runs: %r' % (res,)
+    return f
+
+
+@expectation('c17_never')
+def c17_never():
+    return lambda res: (False, 'no native replay is defined for the entry-point accounting obligation (a counterexample is reported as inconclusive)')
+
+
+def o2_entrypoint(chk, prog):
+    """client_entrypoint from MIR: whatever the first packet is (startup / SSL request without TLS configured / cancel request / junk) and
+    however startup and the session end, the drain channel -- the count main() waits on to exit "once all clients have left" -- gets
+    +1 exactly when a non-admin client was admitted and -1 exactly once when that client's session is over."""
+    ob = chk.begin('O2-entrypoint-drain', 'client_entrypoint (real coroutine): first packet code SYMBOLIC (startup, SSL request with no TLS configured followed '
+                   'by a second packet, cancel request, anything else), Client::startup / Client::cancel succeed or fail, the client is admin or not, '
+                   'the session (Client::handle) ends Ok or Err -- all solver choices: the values sent on the drain channel sum to 0 on every path, '
+                   '+1 is sent iff a non-admin client was admitted, and a session that ended in error has its statistics entry removed',
+                   {'first_packet': 'symbolic code', 'outcomes': 'symbolic'})
+    f = fn(prog, 'client_entrypoint')
+    ip = chk.interp(prog, 'O2-entrypoint-drain')
+    install_stats_noops(ip)
+    base = list(ip.overrides)
+
+    def harness(ip_):
+        ip_.overrides[:] = base
+        sent = []
+        flags = {}
+        code = ip_.fresh(32, 'first_code')
+        code2 = ip_.fresh(32, 'second_code')
+        from harness import wire
+        pkt = lambda c: wire.be(8 + 5, 4) + [bv(8, z3.Extract(31 - 8 * i, 24 - 8 * i, c.z())) for i in range(4)] + [BV(8, x) for x in b'user\0']
+        st = StreamV(pkt(code) + pkt(code2), 'tcp')
+        client = mk_client(ip_, prog, admin=ip_.fresh(1, 'is_admin'))
+
+        def start(c, *a):
+            if ip_.choose(2, 'startup_ok') == 1:
+                flags['admitted'] = True
+                return Opaque('HookFuture', 'ready', ok(ip_, client))
+            return Opaque('HookFuture', 'ready', err(ip_, ip_.make_enum('Error', 'ClientBadStartup')))
+
+        def handle(c, p):
+            flags['handled'] = flags.get('handled', 0) + 1
+            r = ok(ip_, unit()) if ip_.choose(2, 'session_ok') == 1 else err(ip_, ip_.make_enum('Error', 'ClientBadStartup'))
+            flags['result_err'] = (variant(ip_, r, 'Result') == 'Err')
+            return Opaque('HookFuture', 'ready', r)
+
+        def send(c, p, v):
+            sent.append(v)
+            return Opaque('HookFuture', 'ready', ok(ip_, unit()))
+
+        def disc(c, *a):
+            flags['disconnects'] = flags.get('disconnects', 0) + 1
+            return unit()
+        ip_.overrides[:0] = [
+            (re.compile(r'^(?:client::)?Client::<.*>::(startup|cancel)$|^(?:client::)?startup_tls$'), start),
+            (re.compile(r'^(?:client::)?Client::<.*>::handle$'), handle),
+            (re.compile(r'^(?:tokio::sync::mpsc::)?(?:bounded::)?Sender::<i32>::send$'), send),
+            (re.compile(r'^(?:stats::\w+::)?ClientStats::disconnect$'), disc),
+            (re.compile(r'TcpStream::peer_addr$'), lambda c, p: ok(ip_, Opaque('SocketAddr', 'addr'))),
+            (re.compile(r'^tokio::io::split::<'), lambda c, s_: Agg([s_, s_], 'tuple')),
+        ]
+
+        def poll_hook(ip2, co, ptr):
+            if isinstance(co, Opaque) and co.ty == 'HookFuture' and co.tag == 'ready':
+                return EnumV(BV(64, 0), {'Ready': [co.data]}, 'Poll')
+            raise Inconclusive('poll of %r' % (co,))
+        ip_.poll_hook = poll_hook
+        csm = Ptr(Cell(Agg([MapV('hashmap')], 'Lock'), 'csmap'))
+        try:
+            r = ip_.drive(ip_.call_function(f, [st, csm, Opaque('Receiver', 'shutdown'), Ptr(Cell(Opaque('Sender', 'drain'), 'drain')), BV(1, 0), none(ip_), BV(1, 0)]))
+        except Panic as p:
+            raise Inconclusive('client_entrypoint panic: ' + p.msg)
+        ob.nontrivial += 1
+        vals = [v.v if v.concrete else None for v in sent]
+        is_admin = decide(ip_, client.fields[prog.src.structs['Client'].index('admin')].z() == 1) if flags.get('admitted') else None
+        total = sum(x for x in vals if x is not None)
+        total = total - (1 << 32) * sum(1 for x in vals if x is not None and x >= (1 << 31))
+
+        def rep(key, what):
+            chk.report(ob, 'C17/O2/' + key, what + ' (drain sends %r, admitted=%s, admin=%s, session error=%s)' % (vals, flags.get('admitted'), is_admin, flags.get('result_err')),
+                       {}, {'commands': [{'op': 'entrypoint_drain', 'scenario': sc} for sc in ('terminate', 'drop', 'bad_startup')], 'expect': ['c17_drain']})
+        if None in vals:
+            rep('symbolic-count', 'a symbolic value is sent on the drain channel')
+        elif total != 0:
+            rep('drain-unbalanced', 'the drain channel is left at %+d: main() would %s' % (total, 'wait for a client that has already left until shutdown_timeout' if total > 0 else 'exit while a client is still connected'))
+        elif flags.get('admitted') and is_admin is False and vals[:1] != [1]:
+            rep('drain-not-counted', 'a non-admin client was admitted without being counted')
+        elif (not flags.get('admitted') or is_admin) and vals:
+            rep('drain-counted-wrongly', 'the drain channel is used for a client that is admin or was never admitted')
+        if flags.get('result_err') and not flags.get('disconnects'):
+            chk.report(ob, 'C18/O2/err-session-not-unregistered', 'a session that ended in error is not removed from the statistics by the entry point', {}, {'commands': [], 'expect': ['c17_never']})
+        if len(ob.samples) < 3:
+            ob.samples.append({'drain': vals, 'admitted': flags.get('admitted', False), 'handled': flags.get('handled', 0)})
+    ip.explore(harness, max_paths=4000)
+    chk.absorb(ob, ip)
+    chk.end(ob)
 
 
 def main(chk):
@@ -31,6 +146,10 @@ def main(chk):
     tasks.append((c09.o1_startup, (prog, 'admin', 'pgcat', 36, 'none', True)))
     tasks.append((c09.o1_startup, (prog, 'admin', 'pgbouncer', 36, 'none', True)))
     chk.parallel(c09._dispatch, tasks)
+    try:
+        o2_entrypoint(chk, prog)
+    except Inconclusive as e:
+        chk.note_inconclusive('O2-entrypoint-drain: %s' % e)
     hobl.handle_obligations(chk, prog, {'C17'}, ['shutdown'])
 
 
